@@ -29,6 +29,8 @@ import SarpyModel.Drivers.LifeGen
 import SarpyModel.Drivers.CheckerRules
 import SarpyModel.Drivers.CheckerGen
 import SarpyModel.Drivers.Tre
+import SarpyModel.Drivers.Dispatch
+import SarpyModel.Drivers.DispatchGen
 import SarpyModel.Drivers.NitfDtype
 namespace Sarpy.Drivers
 
@@ -66,6 +68,8 @@ def step (line : String) : String :=
   | "chkspec" :: rest => (chkspecStep rest).getD "bad-op"
   | "chkgen" :: rest => (chkgenStep rest).getD "bad-op"
   | "tre" :: rest => (treStep rest).getD "bad-op"
+  | "disp" :: rest => (dispStep rest).getD "bad-op"
+  | "dispgen" :: rest => (dispgenStep rest).getD "bad-op"
   | "nitfdtype" :: rest => (nitfdtypeStep rest).getD "bad-op"
   | _ => "bad-op"
 
